@@ -569,6 +569,17 @@ def observe(kind, obj, out):
     return None
 
 
+def _take(g, out):
+    """the next value of an open generator; in half of the generators the consumer then edits the yielded list (a value
+    handed out must not be one the enumeration still works on)"""
+    x = next(g["it"])
+    v = g["conv"](x)
+    if g.get("edit") and isinstance(x, list):
+        x.clear()
+        out.fault("yielded_value_edited")
+    return v
+
+
 def _budget_only_difference(a, b):
     """two observations differ only where at least one of them is the "budget" marker"""
     if a == "budget" or b == "budget":
@@ -833,7 +844,7 @@ def run(case, out):
             if name == "gen.step":
                 for _ in range(op["arg"]):
                     try:
-                        g["got"].append(_bounded(out, lambda: g["conv"](next(g["it"]))))
+                        g["got"].append(_bounded(out, lambda: _take(g, out)))
                     except StopIteration:
                         g["done"] = True
                         break
@@ -925,7 +936,7 @@ def run(case, out):
             if it is FAILED:
                 continue
             gens[op["new"]] = {"it": it, "got": [], "want": want, "conv": conv, "done": False, "src": on,
-                               "name": e.kind}
+                               "name": e.kind, "edit": op["new"] % 2 == 0}
             continue
         if name == "error_path":
             out.ops += 1
